@@ -12,6 +12,8 @@ var argPool = []string{
 	"a", "abc", "x-1.y_2", "hello world", "", "é日本", "it's", "say \"hi\"", "back\\slash", "semi;colon", "{brace}", "a//b", "/* c */", "plus+plus",
 	"line1\nline2", "l1\nl2\nl3", "tab\tinside", "urn:x:y", "1..10|20..max", "../a/b[k='v']", "trailing", "'q'", "a'b\"c", "+", "++", "a +b",
 	"multi\n\nblank", "end\n", "\nstart",
+	// blanks at the very end / start of a (multi-line) value: not next to a line break, so every form must keep them
+	"first\nsecond ", "one\ntwo\t", "trail ", " lead", "a\nb\nlast  ",
 }
 
 // GenGenericModule builds a module whose body consists of prefixed extension
